@@ -207,61 +207,74 @@ fn test_program_threads(p: &Program, cx: &mut Cx) -> CaseResult {
 
 // --- the system time zone as an *unnamed* TZif handle (TZ=:/path/to/file outside any zoneinfo tree) ---
 
-fn run_system_zone(rec: &Recorder, check: &'static str) {
+/// The body of the system-zone case; returns (probe count, whether the handle is unnamed).
+fn check_system_zone(path: &str) -> Result<(u64, bool), Failure> {
     use jiff::tz::TimeZone;
     use jiff::Timestamp;
-    let path = format!("{}/fat/Verif/East", crate::zones::CORPUS_TZIF);
-    let Ok(bytes) = std::fs::read(&path) else {
-        rec.health_error(format!("{check}: cannot read {path}"));
-        return;
-    };
-    // (no other thread of the harness reads the environment while a sweep runs)
+    let bytes = std::fs::read(path).map_err(|e| Failure::new("HARNESS-PANIC", format!("cannot read {path}: {e}")))?;
+    // (no other thread of the harness reads the environment while this runs)
     let old = std::env::var_os("TZ");
     std::env::set_var("TZ", format!(":{path}"));
-    let result = sweep_case(rec, check, &serde_json::json!({"tz_env": path}), || {
-        let sys = TimeZone::try_system().map_err(|e| Failure::new("system-zone-unavailable", e.to_string()))?;
-        let named = TimeZone::tzif("Verif/East", &bytes).map_err(|e| Failure::new("harness-tzif", e.to_string()))?;
-        // the laws of the statement, on this representation too
-        ensure!(sys == sys, "system-zone-not-reflexive", "the system zone handle is not equal to itself ({sys:?})");
-        let c1 = sys.clone();
-        ensure!(sys == c1 && c1 == sys, "system-zone-clone-not-equal", "a clone of the system zone handle is not equal to it");
-        let again = TimeZone::try_system().map_err(|e| Failure::new("system-zone-unavailable", e.to_string()))?;
-        ensure!(again == sys && sys == again, "system-zone-second-lookup-not-equal", "two lookups of the same system zone are not equal");
-        let moved = std::thread::spawn(move || c1).join().map_err(|_| Failure::new("system-zone-thread", "join failed"))?;
-        ensure!(moved == sys, "system-zone-clone-not-equal", "a clone sent through a thread is not equal to the original");
-        for other in [TimeZone::UTC, TimeZone::unknown(), TimeZone::fixed(jiff::tz::offset(5)), TimeZone::posix("EST5EDT,M3.2.0,M11.1.0").unwrap()] {
-            ensure!((sys == other) == (other == sys), "system-zone-eq-not-symmetric", "equality with {other:?} is not symmetric");
-        }
-        // every handle answers like the same bytes loaded directly
-        let mut n = 0u64;
-        for t in crate::zones::make_probes(&crate::refmodel::reftz::parse_tzif(&bytes).unwrap(), 2045) {
-            for d in [-1i64, 0, 1] {
-                let Ok(ts) = Timestamp::from_second(t + d) else { continue };
-                n += 1;
-                for h in [&sys, &moved, &again] {
-                    let (a, b) = (h.to_offset_info(ts), named.to_offset_info(ts));
-                    ensure!(a.offset() == b.offset() && a.dst() == b.dst() && a.abbreviation() == b.abbreviation(), "system-zone-answers-differ", "at {ts}: system zone handle says {:?}, the same bytes loaded directly say {:?}", a, b);
-                }
+    struct Restore(Option<std::ffi::OsString>);
+    impl Drop for Restore {
+        fn drop(&mut self) {
+            match self.0.take() {
+                Some(v) => std::env::set_var("TZ", v),
+                None => std::env::remove_var("TZ"),
             }
         }
-        // and it keeps working as the zone of a Zoned (until/since compare the two zones)
-        let z1 = Timestamp::from_second(1_000_000_000).unwrap().to_zoned(sys.clone());
-        let z2 = Timestamp::from_second(1_100_000_000).unwrap().to_zoned(again.clone());
-        ensure!(z1.until((jiff::Unit::Day, &z2)).is_ok(), "system-zone-until-fails", "Zoned::until between two values in the system zone fails: {:?}", z1.until((jiff::Unit::Day, &z2)));
+    }
+    let _restore = Restore(old);
+    let sys = TimeZone::try_system().map_err(|e| Failure::new("system-zone-unavailable", e.to_string()))?;
+    let named = TimeZone::tzif("Verif/East", &bytes).map_err(|e| Failure::new("harness-tzif", e.to_string()))?;
+    // the laws of the statement, on this representation too
+    ensure!(sys == sys, "system-zone-not-reflexive", "the system zone handle is not equal to itself ({sys:?})");
+    let c1 = sys.clone();
+    ensure!(sys == c1 && c1 == sys, "system-zone-clone-not-equal", "a clone of the system zone handle is not equal to it");
+    let again = TimeZone::try_system().map_err(|e| Failure::new("system-zone-unavailable", e.to_string()))?;
+    ensure!(again == sys && sys == again, "system-zone-second-lookup-not-equal", "two lookups of the same system zone are not equal");
+    let moved = std::thread::spawn(move || c1).join().map_err(|_| Failure::new("system-zone-thread", "join failed"))?;
+    ensure!(moved == sys, "system-zone-clone-not-equal", "a clone sent through a thread is not equal to the original");
+    for other in [TimeZone::UTC, TimeZone::unknown(), TimeZone::fixed(jiff::tz::offset(5)), TimeZone::fixed(jiff::tz::offset(-7)), TimeZone::posix("EST5EDT,M3.2.0,M11.1.0").unwrap()] {
+        ensure!((sys == other) == (other == sys) && !(sys == other) && (named == other) == (other == named) && !(named == other), "system-zone-eq-not-symmetric", "equality with {other:?} is not symmetric, or a TZif zone equals a zone of another kind");
+    }
+    // every handle answers like the same bytes loaded directly
+    let mut n = 0u64;
+    for t in crate::zones::make_probes(&crate::refmodel::reftz::parse_tzif(&bytes).unwrap(), 2045) {
+        for d in [-1i64, 0, 1] {
+            let Ok(ts) = Timestamp::from_second(t + d) else { continue };
+            n += 1;
+            for h in [&sys, &moved, &again] {
+                let (a, b) = (h.to_offset_info(ts), named.to_offset_info(ts));
+                ensure!(a.offset() == b.offset() && a.dst() == b.dst() && a.abbreviation() == b.abbreviation(), "system-zone-answers-differ", "at {ts}: system zone handle says {:?}, the same bytes loaded directly say {:?}", a, b);
+            }
+        }
+    }
+    // and it keeps working as the zone of a Zoned (until/since compare the two zones)
+    let z1 = Timestamp::from_second(1_000_000_000).unwrap().to_zoned(sys.clone());
+    let z2 = Timestamp::from_second(1_100_000_000).unwrap().to_zoned(again.clone());
+    ensure!(z1.until((jiff::Unit::Day, &z2)).is_ok(), "system-zone-until-fails", "Zoned::until between two values in the system zone fails: {:?}", z1.until((jiff::Unit::Day, &z2)));
+    Ok((n, sys.iana_name().is_none()))
+}
+
+fn run_system_zone(rec: &Recorder, check: &'static str) {
+    let path = format!("{}/fat/Verif/East", crate::zones::CORPUS_TZIF);
+    if std::fs::metadata(&path).is_err() {
+        rec.health_error(format!("{check}: cannot read {path}"));
+        return;
+    }
+    sweep_case(rec, check, &serde_json::json!({"tz_env": path}), || {
+        let (n, unnamed) = check_system_zone(&path)?;
         rec.add_evaluations(n);
-        rec.add_class(if sys.iana_name().is_none() { "system zone: unnamed TZif handle" } else { "system zone: named" }, 1);
+        rec.add_class(if unnamed { "system zone: unnamed TZif handle" } else { "system zone: named" }, 1);
         Ok(())
     });
-    let _ = result;
-    match old {
-        Some(v) => std::env::set_var("TZ", v),
-        None => std::env::remove_var("TZ"),
-    }
     rec.add_distinct_nontrivial(1);
 }
 
-fn replay_system(_: serde_json::Value) -> CaseResult {
-    Ok(())
+fn replay_system(v: serde_json::Value) -> CaseResult {
+    let path = v.get("tz_env").and_then(|p| p.as_str()).map(|s| s.to_string()).unwrap_or_else(|| format!("{}/fat/Verif/East", crate::zones::CORPUS_TZIF));
+    check_system_zone(&path).map(|_| ())
 }
 
 fn strat_alloc() -> BoxedStrategy<Program> {
